@@ -62,6 +62,7 @@ Emitted(s) ==
        THEN ~IsEmptyVal(s[k]) \/ (k \in AssertingLists /\ ~DEV_OmitEmptyAssertingLists)
        ELSE IF k \in {"depSchemas", "depStrings"} THEN ~IsEmptyVal(s[k])
        ELSE IF k \in {"uniqueItems", "deprecated", "readOnly", "writeOnly"} THEN s[k]
+       ELSE IF k = "propertyOrder" THEN FALSE            \* json:"-": only steers the order of "properties"
        ELSE TRUE}
 RECURSIVE Mar(_)
 \* the document Marshal writes for schema value s (boolean folding is a rendering matter)
